@@ -219,6 +219,7 @@ template <class F, class Img, bool Convert, class Src> static void do_view(Src& 
     o.w = w; o.h = h; o.pix = hash_view(v);
 }
 
+static const long SCAN_ROWS = 70000;
 // scanline reader over each device kind
 template <class F> struct scan {
     typedef typename F::tag tag;
@@ -226,7 +227,9 @@ template <class F> struct scan {
         long rows = 0; uint64_t h = 0;
         auto it = rd.begin(); auto end = rd.end();
         size_t sl = rd._scanline_length;
-        for (; it != end; ++it) {
+        // the caller decides how many rows it pulls: at most SCAN_ROWS (the declared height is not capped by
+        // any allocation here, and every row costs a device round trip)
+        for (; it != end && rows < SCAN_ROWS; ++it) {
             gil::byte_t* row = *it;
             h = c11::hash_raw(row, sl, h);
             ++rows;
@@ -303,7 +306,7 @@ static const long VIEW_PIXEL_CAP = 1 << 20;
 // all entry points through one device
 // lite: the header declares more than LITE_PIXELS pixels (every call costs time proportional to that):
 // only read_image_info, read_image and the scanline reader are run
-static const uint64_t LITE_PIXELS = (uint64_t)8 << 20;
+static const uint64_t LITE_PIXELS = (uint64_t)2 << 20;
 template <class F> static void run_device(input_t const& in, dev_kind d, uint64_t salt, bool with_subrect) {
     typedef typename F::tag tag;
     bool lite = in.declared > LITE_PIXELS;
@@ -394,19 +397,30 @@ static void mut_case(std::string const& cls_tail, std::string const& id, bool tr
     else vh::distinct_hash(c11::hash_raw(bytes.data(), bytes.size(), vh::hash_str(F::name())));
 }
 
+// Enumeration must stay cheap (a shard is restarted after every fatal case): the class / id strings and the
+// bytes of a case are only built when this process is going to run it.
+static bool c11_want_next() {
+    vh::state_t& s = vh::st();
+    long next = s.idx + 1;
+    if (s.only >= 0) return next == s.only;
+    return next >= s.start && next % s.shard_n == s.shard_i;
+}
+static void c11_skip_case() { ++vh::st().idx; ++g_case_counter; }     // what begin_case() does for a case of another shard
+#define MUT(cls, id, tv, en, ...) do { if (c11_want_next()) mut_case<F>(cls, id, tv, en, __VA_ARGS__); else c11_skip_case(); } while (0)
+
 // the generic mutation families over a list of seeds
 template <class F> static void generic_families(std::vector<seed_t> const& seeds) {
     bool T = vh::thorough();
     // (0) the seeds themselves: controls
     for (auto const& s : seeds)
-        mut_case<F>("valid", s.name, false, true, [&] { return s.bytes; });
+        MUT("valid", s.name, false, true, [&] { return s.bytes; });
     // (i) truncation at every byte (small seeds) / every head byte + stride (larger seeds)
     for (auto const& s : seeds) {
         if (!T && !s.rep && s.bytes.size() > 2048) continue;
         size_t every = T ? 4096 : 640;
-        std::vector<size_t> pts = c11::truncation_points(s.bytes.size(), every, T ? 512 : 192, T ? 384 : (s.rep ? 40 : 16));
+        std::vector<size_t> pts = c11::truncation_points(s.bytes.size(), every, T ? 512 : 128, T ? 384 : (s.rep ? 24 : 12));
         for (size_t len : pts)
-            mut_case<F>("truncate", vh::cat(s.name, "@", len), true, true, [&] { return s.bytes.substr(0, len); });
+            MUT("truncate", vh::cat(s.name, "@", len), true, true, [&] { return s.bytes.substr(0, len); });
     }
     // (ii) every header field x boundary values
     for (auto const& s : seeds) {
@@ -417,7 +431,7 @@ template <class F> static void generic_families(std::vector<seed_t> const& seeds
             if (f.width == 4) { uint64_t more[] = { 0xFFFFFFFEull, 0x80000001ull, 0x10000ull, 0xFFFFFF80ull }; vals.insert(vals.end(), more, more + 4); }
             if (f.width == 2) { uint64_t more[] = { 0xFFFEull, 0x8001ull, 0x0100ull }; vals.insert(vals.end(), more, more + 3); }
             for (uint64_t v : vals)
-                mut_case<F>(vh::cat("field.", f.name), vh::cat(s.name, ":", f.name, "=", v), false, true, [&] {
+                MUT(vh::cat("field.", f.name), vh::cat(s.name, ":", f.name, "=", v), false, true, [&] {
                     std::string b = s.bytes;
                     if (f.big_endian) c11::put_be(b, f.off, f.width, v); else c11::put_le(b, f.off, f.width, v);
                     return F::fixup(b);
@@ -429,7 +443,7 @@ template <class F> static void generic_families(std::vector<seed_t> const& seeds
         int n = T ? (s.rep ? 5000 : 1500) : (s.rep ? 200 : 60);
         if (s.bytes.size() > 12000) n = T ? n / 2 : n / 2;
         for (int k = 0; k < n; ++k)
-            mut_case<F>("random", vh::cat(s.name, "#", k), false, false, [&] {
+            MUT("random", vh::cat(s.name, "#", k), false, false, [&] {
                 vh::rng r = vh::case_rng();
                 std::string b = c11::mutate_random(s.bytes, r, F::header_len(s));
                 return r.below(3) == 0 ? b : F::fixup(b);
@@ -642,14 +656,14 @@ static void targeted() {
     // palette shorter than the largest index (F8)
     for (int bpp : { 1, 4, 8 }) for (int nc : { 1, 2, 3, 15 }) {
         if (nc >= (1 << bpp)) continue;
-        mut_case<F>("palette-short", vh::cat("pal", bpp, "-numcolors", nc), false, true, [&] {
+        MUT("palette-short", vh::cat("pal", bpp, "-numcolors", nc), false, true, [&] {
             bmp_spec s = spec(8, 3, bpp, 0); s.num_colors_field = nc; s.palette_entries = nc;
             s.data = bmp_raw_rows(8, 3, bpp, 1 << bpp, 100 + bpp); for (auto& c : s.data) c = (char)0xFF;
             return bmp_build(s, 100 + nc);
         });
     }
     for (int nc : { 1, 2, 5 }) for (int rle4 = 0; rle4 < 2; ++rle4)
-        mut_case<F>("palette-short-rle", vh::cat(rle4 ? "rle4" : "rle8", "-numcolors", nc), false, true, [&] {
+        MUT("palette-short-rle", vh::cat(rle4 ? "rle4" : "rle8", "-numcolors", nc), false, true, [&] {
             bmp_spec s = spec(8, 3, rle4 ? 4 : 8, rle4 ? 2 : 1); s.num_colors_field = nc; s.palette_entries = nc;
             s.data = bmp_rle(8, 3, rle4, rle4 ? 16 : 256, 140 + nc, false);
             for (size_t i = 1; i < s.data.size(); i += 2) if (s.data[i - 1] != 0) s.data[i] = (char)0xFE;    // run colours far beyond the palette
@@ -658,7 +672,7 @@ static void targeted() {
     // num_colors negative / huge while the file stays small
     for (long long nc : { -1LL, -2LL, -256LL, (long long)INT32_MIN, 257LL, 65536LL, 1000000LL, 70000000LL, (long long)INT32_MAX })
         for (int bpp : { 1, 8 })
-            mut_case<F>("numcolors", vh::cat("pal", bpp, "-numcolors", nc), false, true, [&] {
+            MUT("numcolors", vh::cat("pal", bpp, "-numcolors", nc), false, true, [&] {
                 bmp_spec s = spec(4, 2, bpp, 0); s.num_colors_field = (int)nc; s.palette_entries = 4; s.data = bmp_raw_rows(4, 2, bpp, 2, 160);
                 return bmp_build(s, 161);
             });
@@ -687,28 +701,28 @@ static void targeted() {
         { "zero-run-loop", false, { 8, 1, 5, 2, 5, 3, 5, 4 } } };
     for (auto const& c : rc)
         for (int td = 0; td < 2; ++td)
-            mut_case<F>(vh::cat("rle-", c.id), vh::cat(c.id, td ? "-topdown" : ""), false, true, [&] {
+            MUT(vh::cat("rle-", c.id), vh::cat(c.id, td ? "-topdown" : ""), false, true, [&] {
                 bmp_spec s = spec(8, 3, c.rle4 ? 4 : 8, c.rle4 ? 2 : 1); s.topdown = td;
                 for (int x : c.stream) s.data.push_back((char)x);
                 return bmp_build(s, 170);
             });
     // compression field inconsistent with bpp
     for (int bpp : { 1, 4, 8, 16, 24, 32 }) for (int comp : { 0, 1, 2, 3, 4, 5, 6 })
-        mut_case<F>("compression-vs-bpp", vh::cat("bpp", bpp, "-comp", comp), false, true, [&] {
+        MUT("compression-vs-bpp", vh::cat("bpp", bpp, "-comp", comp), false, true, [&] {
             bmp_spec s = spec(6, 3, bpp, comp); s.data = bmp_raw_rows(6, 3, bpp, 1 << std::min(bpp, 8), 180);
             s.masks[0] = 0x7C00; s.masks[1] = 0x3E0; s.masks[2] = 0x1F;
             return bmp_build(s, 181);
         });
     // odd bits-per-pixel values
     for (int bpp : { 0, 2, 3, 5, 7, 9, 12, 15, 17, 23, 25, 31, 33, 48, 64, 0x8000, 0xFFFF })
-        mut_case<F>("bpp-odd", vh::cat("bpp", bpp), false, true, [&] {
+        MUT("bpp-odd", vh::cat("bpp", bpp), false, true, [&] {
             bmp_spec s = spec(6, 3, 8, 0); s.data = bmp_raw_rows(6, 3, 32, 256, 190);
             std::string b = bmp_build(s, 191); c11::put_le(b, 28, 2, (uint64_t)bpp); return b;
         });
     // data offset beyond EOF / inside the header / huge
     for (long long off : { 0LL, 1LL, 13LL, 14LL, 53LL, 54LL, 55LL, 1000LL, 65535LL, 65536LL, 0x7FFFFFFFLL, 0x80000000LL, 0xFFFFFFFFLL, 0xFFFFFFF0LL })
         for (int kind = 0; kind < 3; ++kind)
-            mut_case<F>("offset", vh::cat(kind == 0 ? "rgb24" : kind == 1 ? "pal8" : "rle8", "-offset", off), false, true, [&] {
+            MUT("offset", vh::cat(kind == 0 ? "rgb24" : kind == 1 ? "pal8" : "rle8", "-offset", off), false, true, [&] {
                 bmp_spec s = kind == 0 ? spec(4, 3, 24, 0) : kind == 1 ? spec(4, 3, 8, 0) : spec(4, 3, 8, 1);
                 s.data = kind == 2 ? bmp_rle(4, 3, false, 256, 200, false) : bmp_raw_rows(4, 3, s.bpp, 256, 200);
                 std::string b = bmp_build(s, 201); c11::put_le(b, 10, 4, (uint64_t)off); return b;
@@ -717,7 +731,7 @@ static void targeted() {
     uint32_t masks[][3] = { { 0, 0, 0 }, { 0xFFFF, 0, 0 }, { 0xFFFFFFFFu, 0xFFFFFFFFu, 0xFFFFFFFFu }, { 0x1FF, 0x3FE00, 0x7FC0000 }, { 0x8000, 0x4000, 0x2000 },
                             { 0xF0F0, 0x0F0F, 0x00FF }, { 0x80000000u, 0x7F000000, 0x00FF0000 }, { 1, 2, 4 }, { 0x7FF, 0xF800, 0 }, { 0xFF000000u, 0x00FFFF00, 0xFF } };
     for (int bpp : { 16, 32 }) for (int k = 0; k < 10; ++k)
-        mut_case<F>("bitfield-mask", vh::cat("bpp", bpp, "-masks", k), false, true, [&] {
+        MUT("bitfield-mask", vh::cat("bpp", bpp, "-masks", k), false, true, [&] {
             bmp_spec s = spec(5, 3, bpp, 3); s.masks[0] = masks[k][0]; s.masks[1] = masks[k][1]; s.masks[2] = masks[k][2];
             s.data = bmp_raw_rows(5, 3, bpp, 0, 210 + k); for (auto& c : s.data) c = (char)0xFF;
             return bmp_build(s, 211);
@@ -731,7 +745,7 @@ static void targeted() {
                       { "w-1-h-3000000-bpp24", 1, 3000000, 24 }, { "w-3000000-h-1-pal8", 3000000, 1, 8 }, { "w-2^16+1-rle8", 65537, 1, 8 } };
     for (auto const& c : dc) {
         if (!vh::thorough() && (long long)c.w * c.h > (6LL << 20) && (long long)c.w * c.h < (100LL << 20)) continue;   // allocatable and slow
-        mut_case<F>("dimension", c.id, false, true, [&] {
+        MUT("dimension", c.id, false, true, [&] {
             bmp_spec s = spec(4, 2, c.bpp, strstr(c.id, "rle8") ? 1 : 0);
             s.data = strstr(c.id, "rle8") ? bmp_rle(4, 2, false, 256, 220, false) : bmp_raw_rows(4, 2, c.bpp, 256, 220);
             std::string b = bmp_build(s, 221); c11::put_le(b, 18, 4, (uint64_t)c.w); c11::put_le(b, 22, 4, (uint64_t)c.h); return b;
@@ -739,16 +753,16 @@ static void targeted() {
     }
     // header_size values between the known sizes
     for (int hs : { 0, 11, 12, 13, 16, 39, 40, 41, 52, 56, 64, 108, 124, 125, 0xFFFF })
-        mut_case<F>("header-size", vh::cat("hs", hs), false, true, [&] {
+        MUT("header-size", vh::cat("hs", hs), false, true, [&] {
             bmp_spec s = spec(4, 2, 24, 0); s.data = bmp_raw_rows(4, 2, 24, 0, 230);
             std::string b = bmp_build(s, 231); c11::put_le(b, 14, 4, (uint64_t)hs); return b;
         });
     // not a BMP at all
     const char* junk[] = { "", "B", "BM", "MB", "P6 1 1 255 abc", "\x89PNG\r\n\x1a\n", "\xff\xd8\xff\xe0", "II*\0", "GIF89a" };
     for (int k = 0; k < 9; ++k)
-        mut_case<F>("not-bmp", vh::cat("junk", k), false, true, [&] { return std::string(junk[k], k == 7 ? 4 : strlen(junk[k])); });
+        MUT("not-bmp", vh::cat("junk", k), false, true, [&] { return std::string(junk[k], k == 7 ? 4 : strlen(junk[k])); });
     for (int k = 0; k < (vh::thorough() ? 400 : 60); ++k)
-        mut_case<F>("noise", vh::cat("noise", k), false, false, [&] {
+        MUT("noise", vh::cat("noise", k), false, false, [&] {
             vh::rng r = vh::case_rng(); std::string b = "BM"; size_t n = 12 + r.below(120);
             for (size_t i = 0; i < n; ++i) b.push_back((char)(r.below(3) ? r.below(4) : r.next()));
             c11::put_le(b, 14, 4, r.coin() ? 40 : 12); return b;
@@ -854,20 +868,20 @@ static void header_text() {
             if (fld == 2 && (t == 1 || t == 4)) continue;
             const char* fname = fld == 0 ? "width" : fld == 1 ? "height" : "maxval";
             for (int k = 0; k < NN; ++k)
-                mut_case<F>(vh::cat("field.", fname), vh::cat("P", t, ":", fname, "=", k), false, true, [&] {
+                MUT(vh::cat("field.", fname), vh::cat("P", t, ":", fname, "=", k), false, true, [&] {
                     return pnm_build(t, fld == 0 ? nums[k] : "7", fld == 1 ? nums[k] : "5", fld == 2 ? nums[k] : "255", 7, 5, 70 + t, false);
                 });
         }
     }
     const char* types[] = { "P0", "P7", "P9", "P", "Q5", "p5", "P10", "P-1", "P\n5", "#c\nP5", " P5", "P5#c", "P 5" };
     for (int k = 0; k < 13; ++k)
-        mut_case<F>("field.type", vh::cat("type", k), false, true, [&] { return std::string(types[k]) + "\n3 2\n255\n" + std::string(18, 'x'); });
+        MUT("field.type", vh::cat("type", k), false, true, [&] { return std::string(types[k]) + "\n3 2\n255\n" + std::string(18, 'x'); });
 }
 static void targeted() {
     header_text();
     // digit strings longer than the reader's 16-byte number buffer (F13), in every ASCII type and position
     for (int t = 1; t <= 3; ++t) for (int digits : { 14, 15, 16, 17, 20, 32, 64, 200, 5000 }) for (int where = 0; where < 3; ++where)
-        mut_case<F>("text-long-number", vh::cat("P", t, "-", digits, "digits-", where == 0 ? "first" : where == 1 ? "middle" : "last"), false, true, [&] {
+        MUT("text-long-number", vh::cat("P", t, "-", digits, "digits-", where == 0 ? "first" : where == 1 ? "middle" : "last"), false, true, [&] {
             std::string b = vh::cat("P", t, "\n4 2\n", t == 1 ? "" : "255\n");
             int n = 8 * (t == 3 ? 3 : 1), at = where == 0 ? 0 : where == 1 ? n / 2 : n - 1;
             for (int i = 0; i < n; ++i) { b += i == at ? std::string(digits, '1') : std::string("1"); b += " "; }
@@ -877,13 +891,13 @@ static void targeted() {
     const char* bodies[] = { "1 2 3 -4 5 6 7 8", "1 2 3 x 5 6 7 8", "256 300 65536 4294967296 1 1 1 1", "1 2 3", "", "1 2 3 4 5 6 7 8#c", "1 2 3 4 5 6 7 #c\n8",
                              "1\t2\r3\v4\f5 6 7 8", "12345678", "1 2 3 4 5 6 7 8 9 10 11 12", "1,2,3,4,5,6,7,8", "1 2 3 4 5 6 7 8" };
     for (int t = 1; t <= 3; ++t) for (int k = 0; k < 12; ++k)
-        mut_case<F>("text-body", vh::cat("P", t, "-body", k), false, true, [&] {
+        MUT("text-body", vh::cat("P", t, "-body", k), false, true, [&] {
             std::string body = bodies[k]; if (t == 3) body = body + " " + body + " " + body;
             return vh::cat("P", t, "\n4 2\n", t == 1 ? "" : "255\n", body);
         });
     // maxval vs data and type
     for (int t : { 2, 3, 5, 6 }) for (const char* mv : { "0", "1", "2", "254", "255", "256", "65535" })
-        mut_case<F>("maxval", vh::cat("P", t, "-max", mv), false, true, [&] { return pnm_build(t, "4", "2", mv, 4, 2, 80 + t, false); });
+        MUT("maxval", vh::cat("P", t, "-max", mv), false, true, [&] { return pnm_build(t, "4", "2", mv, 4, 2, 80 + t, false); });
     // declared size vs data: far more / fewer samples than declared
     struct { const char* id; const char* w; const char* h; int pw, ph; } dc[] = {
         { "declared-bigger", "40", "30", 4, 3 }, { "declared-smaller", "2", "1", 9, 9 }, { "declared-w0", "0", "5", 4, 3 }, { "declared-h0", "5", "0", 4, 3 },
@@ -892,12 +906,12 @@ static void targeted() {
         { "declared-16384x5000", "16384", "5000", 4, 3 }, { "declared-w-not-multiple-of-8", "9", "3", 16, 3 } };
     for (int t = 1; t <= 6; ++t) for (auto const& c : dc) {
         if (!vh::thorough() && (strstr(c.id, "3000000") || strstr(c.id, "16384"))) continue;       // allocatable and slow
-        mut_case<F>("dimension", vh::cat("P", t, "-", c.id), false, true, [&] { return pnm_build(t, c.w, c.h, "255", c.pw, c.ph, 90 + t, false); });
+        MUT("dimension", vh::cat("P", t, "-", c.id), false, true, [&] { return pnm_build(t, c.w, c.h, "255", c.pw, c.ph, 90 + t, false); });
     }
     const char* junk[] = { "", "P", "P5", "P5 ", "P5 3", "P5 3 2", "P5 3 2 255", "BM......", "\x89PNG\r\n\x1a\n" };
-    for (int k = 0; k < 9; ++k) mut_case<F>("not-pnm", vh::cat("junk", k), false, true, [&] { return std::string(junk[k]); });
+    for (int k = 0; k < 9; ++k) MUT("not-pnm", vh::cat("junk", k), false, true, [&] { return std::string(junk[k]); });
     for (int k = 0; k < (vh::thorough() ? 400 : 60); ++k)
-        mut_case<F>("noise", vh::cat("noise", k), false, false, [&] {
+        MUT("noise", vh::cat("noise", k), false, false, [&] {
             vh::rng r = vh::case_rng(); std::string b = vh::cat("P", 1 + (int)r.below(6), " ");
             static const char alphabet[] = "0123456789 \n\t#-+.xP";
             size_t n = 4 + r.below(90);
@@ -998,7 +1012,7 @@ static void targeted() {
         { "run-crosses-end-4x2", 4, 2, { 0x86, 0x82 } }, { "raw-crosses-end-4x2", 4, 2, { 0x06, 0x02 } }, { "run-then-raw-overrun", 3, 3, { 0x87, 0x7F } },
         { "exact-fit-control", 4, 2, { 0x83, 0x03 } }, { "last-pixel-run128", 16, 8, { 0xFE, 0xFF } }, { "many-runs-beyond", 2, 2, { 0x80, 0x80, 0x80, 0xFF, 0xFF } } };
     for (auto const& c : rc) for (int bpp : { 24, 32 }) for (int ul = 0; ul < 2; ++ul)
-        mut_case<F>("rle-overrun", vh::cat(c.id, "-bpp", bpp, ul ? "-ul" : ""), false, true, [&] {
+        MUT("rle-overrun", vh::cat(c.id, "-bpp", bpp, ul ? "-ul" : ""), false, true, [&] {
             std::string b = tga_header(0, 0, 10, 0, 0, 0, c.w, c.h, bpp, (bpp == 32 ? 8 : 0) | (ul ? 0x20 : 0));
             vh::rng r(91);
             for (int p : c.packets) {
@@ -1010,20 +1024,20 @@ static void targeted() {
         });
     // RLE data ending inside a packet
     for (int cut = 0; cut < 12; ++cut) for (int bpp : { 24, 32 })
-        mut_case<F>("rle-short", vh::cat("cut", cut, "-bpp", bpp), false, true, [&] {
+        MUT("rle-short", vh::cat("cut", cut, "-bpp", bpp), false, true, [&] {
             std::string b = tga_header(0, 0, 10, 0, 0, 0, 6, 4, bpp, bpp == 32 ? 8 : 0);
             std::string d = tga_rle(6, 4, bpp / 8, 92); return b + d.substr(0, std::min<size_t>(d.size(), (size_t)cut));
         });
     // colour-map fields (GIL documents: not supported; must be an error, never trusted)
     for (int cmt : { 0, 1, 2, 255 }) for (int it : { 0, 1, 2, 3, 9, 10, 11, 32, 255 }) for (int cml : { 0, 1, 256, 65535 })
-        mut_case<F>("colormap", vh::cat("cmt", cmt, "-type", it, "-len", cml), false, true, [&] {
+        MUT("colormap", vh::cat("cmt", cmt, "-type", it, "-len", cml), false, true, [&] {
             std::string b = tga_header(0, cmt, it, 0, cml, 24, 4, 3, 24, 0);
             vh::rng r(93); for (int i = 0; i < std::min(cml, 300) * 3; ++i) b.push_back((char)r.next());
             return b + ((it & 8) ? tga_rle(4, 3, 3, 94) : tga_raw(4, 3, 3, 94));
         });
     // descriptor / bpp combinations
     for (int bpp : { 0, 1, 8, 15, 16, 24, 32, 33, 255 }) for (int desc : { 0, 1, 8, 15, 0x20, 0x28, 0x10, 0x30, 0x40, 0x80, 0xFF })
-        mut_case<F>("descriptor", vh::cat("bpp", bpp, "-desc", desc), false, true, [&] {
+        MUT("descriptor", vh::cat("bpp", bpp, "-desc", desc), false, true, [&] {
             return tga_header(0, 0, 2, 0, 0, 0, 4, 3, bpp, desc) + tga_raw(4, 3, 4, 95);
         });
     // dimensions vs data, id length beyond EOF
@@ -1032,15 +1046,15 @@ static void targeted() {
                                                                { "idlen255", 4, 3, 255, 2 }, { "idlen255-rle", 4, 3, 255, 10 }, { "1x65535-rle", 1, 65535, 0, 10 } };
     for (auto const& c : dc) for (int bpp : { 24, 32 }) {
         if (!vh::thorough() && (long)c.w * c.h > (6L << 20) && (long)c.w * c.h * (bpp / 8) < (256L << 20)) continue;   // allocatable and slow
-        mut_case<F>("dimension", vh::cat(c.id, "-bpp", bpp), false, true, [&] {
+        MUT("dimension", vh::cat(c.id, "-bpp", bpp), false, true, [&] {
             std::string b = tga_header(0, 0, c.type, 0, 0, 0, c.w, c.h, bpp, bpp == 32 ? 8 : 0); b[0] = (char)c.idlen;
             return b + (c.type == 10 ? tga_rle(4, 3, bpp / 8, 96) : tga_raw(4, 3, bpp / 8, 96));
         });
     }
     const char* junk[] = { "", "\0", "BM", "P6 1 1 255 abc", "\x89PNG\r\n\x1a\n", "TRUEVISION-XFILE.\0" };
-    for (int k = 0; k < 6; ++k) mut_case<F>("not-tga", vh::cat("junk", k), false, true, [&] { return std::string(junk[k], k == 1 ? 1 : strlen(junk[k])); });
+    for (int k = 0; k < 6; ++k) MUT("not-tga", vh::cat("junk", k), false, true, [&] { return std::string(junk[k], k == 1 ? 1 : strlen(junk[k])); });
     for (int k = 0; k < (vh::thorough() ? 400 : 60); ++k)
-        mut_case<F>("noise", vh::cat("noise", k), false, false, [&] {
+        MUT("noise", vh::cat("noise", k), false, false, [&] {
             vh::rng r = vh::case_rng();
             std::string b = tga_header(r.below(4) ? 0 : (int)r.below(256), 0, r.coin() ? 10 : 2, 0, 0, 0, 1 + (int)r.below(12), 1 + (int)r.below(12), r.coin() ? 24 : 32, 0);
             if ((unsigned char)b[16] == 32) b[17] = (char)(r.coin() ? 8 : 40); else b[17] = (char)(r.coin() ? 0 : 0x20);
